@@ -41,9 +41,8 @@ func newMsg(topic string, payload []byte, qos byte) (m *Message)
 
 func (s *Session) publish(span *model.SpanContext, topic string, payload []byte, qos byte)
   flag allocates
-  flag frame=unchecked
   requires s != nil && s.broker != nil && s.info != nil
-  modifies published, gWroteID, gWrotePending, gOnline
+  modifies published, gWroteID, gWrotePending, gOnline, s.nextID, s.pendingQueue, allof("elem<uint16>"), entries(s.pending), allof("ghostf:github.com/megaease/easegress/pkg/object/mqttproxy.Session.qpos")
   ensures published == old(store(published, ref(s), true))
   ensures a-qos1-message-is-pending-before-it-is-written: gWroteID >= 0 ==> gWrotePending && qos == 1
   ensures an-online-qos1-message-is-written: qos == 1 && gOnline ==> gWroteID >= 0
@@ -60,7 +59,7 @@ pred clientsWF(b *Broker) := forall c string :: c in b.clients ==> b.clients[c] 
 
 func (b *Broker) sendMsgToClient(span *model.SpanContext, topic string, payload []byte, qos byte)
   requires b != nil && b.topicMgr != nil && clientsWF(b)
-  modifies published, gDom, gQoS, gWroteID, gWrotePending, gOnline
+  modifies published, gDom, gQoS, gWroteID, gWrotePending, gOnline, allof("elem<uint16>"), allof("ghostf:github.com/megaease/easegress/pkg/object/mqttproxy.Session.qpos"), allof("map<uint16,*object/mqttproxy.Message>#card"), allof("map<uint16,*object/mqttproxy.Message>#dom"), allof("map<uint16,*object/mqttproxy.Message>#val"), allof("object/mqttproxy.Session.nextID"), allof("object/mqttproxy.Session.pendingQueue#arr"), allof("object/mqttproxy.Session.pendingQueue#cap"), allof("object/mqttproxy.Session.pendingQueue#len")
   ensures every-eligible-connected-subscriber-gets-it: forall c string :: gDom[c] && gQoS[c] >= qos && c in b.clients ==> published[ref(b.clients[c].session)]
   ensures nobody-else: forall s int :: published[s] && !old(published[s]) ==> (exists c string :: gDom[c] && gQoS[c] >= qos && c in b.clients && s == ref(b.clients[c].session))
   invariant[1] captured: gDom == dom$1 && (forall c string :: dom$1[c] ==> gQoS[c] == subscribers[c])
